@@ -435,7 +435,30 @@ def rule_base64_validated(ctx: Ctx, rep: Report) -> None:
     rep.floor(rule, 6)
 
 
+def rule_classification_total(ctx: Ctx, rep: Report) -> None:
+    """C06.classification_total: `address(script)` and `ScriptPubKey.type` classify a
+    script by asking the `is_p2...` predicates in turn; each must answer False
+    for bytes that are not its template, whatever they are -- a push that runs
+    past the end is a BTClibRuntimeError out of `var_bytes.parse`, and a
+    predicate that lets it through makes the address of a perfectly valid
+    future-version witness program (one that happens to end like a multisig)
+    an exception. C19.bool_total's obligations for the script_pub_key
+    predicates, reported here for the address / scriptPubKey inverse."""
+    from rules import C19
+    tmp = Report("C19", rep.tier)
+    tmp.quiet = True
+    C19.rule_bool_total(ctx, tmp)
+    n = 0
+    for o in tmp.obs:
+        if "script_pub_key" in o.instance or "b32." in o.instance or "b58." in o.instance:
+            n += 1
+            rep.ob("C06.classification_total", o.instance, o.held, o.site, o.detail)
+    rep.floor("C06.classification_total", 5)
+
+
 RULES = [
+    ("C06.classification_total", rule_classification_total),
+
     ("C06.base64_validated", rule_base64_validated),
     ("C06.encode_decode_sizes", rule_encode_decode_sizes),
     ("C06.text_admission", rule_text_admission_),
